@@ -280,8 +280,23 @@ pub fn drive(args: &HashMap<String, String>) {
         "(defun (a) 1)",
         "(mod)",
         "(mod . ())",
+        "(com)",
     ] {
         inputs.push(("regression".into(), t.as_bytes().to_vec()));
+    }
+    // bare and one-argument special forms: every keyword the front ends treat specially with no argument, nil, one atom
+    // and one pair, as a REPL line / bare form and as the body of a module under three sigils
+    for kw in ["defun", "defun-inline", "defmacro", "defmac", "defconstant", "defconst", "let", "let*", "assign", "lambda", "if", "list", "qq", "unquote", "com", "mod", "include",
+        "embed-file", "@", "@*env*", "q", "a", "quote", "&rest", "x", "softfork", "string?", "substring"] {
+        for args in ["", " ()", " X", " (X)", " X X", " (X . X)", " . X"] {
+            let f = format!("({kw}{args})");
+            inputs.push(("bare-forms".into(), f.clone().into_bytes()));
+            for sig in ["*standard-cl-21*", "*standard-cl-22*", "*standard-cl-23*"] {
+                inputs.push(("bare-forms".into(), format!("(mod (X) (include {sig}) {f})").into_bytes()));
+            }
+            inputs.push(("bare-forms".into(), format!("(mod (X) {f})").into_bytes()));
+            inputs.push(("bare-forms".into(), format!("(mod (X) (include *standard-cl-21*) (defun g (Y) {f}) (g X))").into_bytes()));
+        }
     }
     // structured soup: balanced forms whose slots (name, parameter list, body) are filled with the wrong kind of thing:
     // definition keywords of both macro systems, the defmac-only string / number functions with any number of
@@ -400,6 +415,10 @@ pub fn drive(args: &HashMap<String, String>) {
         let (family, bytes) = &inputs[*ii];
         let outcome = if r.get("panic").is_some() { "panic" } else if r.get("abort").is_some() { "abort" } else if r.get("timeout").is_some() { "timeout" }
             else { r["outcome"].as_str().unwrap_or("garbled") };
+        // a *valid* generated program that is still compiling after the confirmation limit is not evidence of a loop:
+        // inline expansion copies the argument expression once per use of the parameter, so a few nested inline calls
+        // take hours by design.  Such runs are inconclusive ("slow"), counted and not judged.
+        let outcome = if outcome == "timeout" && family == "valid-deep" { "slow" } else { outcome };
         rep.count(&format!("{e}_{outcome}"));
         rep.nontrivial(&format!("{}|{:?}", e, bytes));
         let modern = r.get("modern").is_some();
